@@ -4,7 +4,7 @@
 From Coq Require Import Arith List Reals.
 From Coquelicot Require Import Coquelicot.
 From GPV Require Import Base.LinAlg Base.Exec Base.Expr Base.Gaussian Models.C05_kernels Models.C19_derivs
-  Proofs.C19_derivs Proofs.C19_phi.
+  Proofs.C19_derivs Proofs.C19_phi Proofs.C19_inputs.
 
 (* RBFCovariance: the term saved in forward (s k / l, s = D2 / l^2) is d/dl of the forward
    value exp(-s/2), for every squared distance D2 (coincident points D2 = 0 included) *)
@@ -29,6 +29,37 @@ Print Assumptions c19_rbf_backward_coincident.
 Theorem c19_matern_backward_coincident : forall nu2 (c l : R), @mat_bwd_of_l TR nu2 c 0%R l = 0%R.
 Proof. exact matern_backward_coincident. Qed.
 Print Assumptions c19_matern_backward_coincident.
+
+(* gradients with respect to the INPUTS (generic code paths; diag = True branch of covar_dist: distance = square root
+   of the summed squared differences; C >= 0 = contribution of the other coordinates).  Where the distance is positive
+   the input derivative is determined by the lengthscale derivative (chain rule), every nu, every coordinate value: *)
+Theorem c19_matern_input_gradient_chain :
+  forall nu2 (c C b l a : R), l <> 0%R -> (0 < C + (a - b) * (a - b))%R ->
+    is_derive (fun t => @mat_of_l TR nu2 c (sqrt (C + (t - b) * (t - b))) l) a
+      (- @mat_bwd_of_l TR nu2 c (sqrt (C + (a - b) * (a - b))) l * l * (a - b)
+         / (sqrt (C + (a - b) * (a - b)) * sqrt (C + (a - b) * (a - b))))%R.
+Proof. exact matern_input_chain. Qed.
+Print Assumptions c19_matern_input_gradient_chain.
+Theorem c19_rbf_input_gradient_chain :
+  forall (C b l a : R), l <> 0%R -> (0 < C + (a - b) * (a - b))%R ->
+    is_derive (fun t => @rbf_of_l TR (C + (t - b) * (t - b)) l) a
+      (- @rbf_bwd_of_l TR (C + (a - b) * (a - b)) l * l * (a - b) / (C + (a - b) * (a - b)))%R.
+Proof. exact rbf_input_chain. Qed.
+Print Assumptions c19_rbf_input_gradient_chain.
+(* at a COINCIDENT pair (distance 0) Matern-3/2 and Matern-5/2 are differentiable in the inputs with derivative 0,
+   although sqrt is not differentiable at 0: a finite input gradient exists there (0 * inf = NaN is not it) *)
+Theorem c19_matern32_input_gradient_coincident :
+  forall (c l b : R), (0 <= c)%R -> (0 < l)%R ->
+    is_derive (fun t => @mat_of_l TR 3 c (sqrt (0 + (t - b) * (t - b))) l) b 0%R.
+Proof. exact matern32_input_coincident. Qed.
+Print Assumptions c19_matern32_input_gradient_coincident.
+Theorem c19_matern52_input_gradient_coincident :
+  forall (c l b : R), (0 <= c)%R -> (0 < l)%R ->
+    is_derive (fun t => @mat_of_l TR 5 c (sqrt (0 + (t - b) * (t - b))) l) b 0%R.
+Proof. exact matern52_input_coincident. Qed.
+Print Assumptions c19_matern52_input_gradient_coincident.
+Example ex_c19_input_chain_hypothesis : (0 < 3 + (1 - 0) * (1 - 0))%R.
+Proof. exact ex_chain_hyp. Qed.
 
 (* LogNormalCDF.backward, main branch (z >= -1; the tail branch is a rational approximation and is
    tested only).  Algebraic form: given log_phi_z = ln P for ANY P > 0 the returned expression is phi(z) / P *)
